@@ -26,12 +26,28 @@ fn decide(input: &[u8]) -> Verdict {
     // (1) events reproduce the input byte for byte (a leading BOM is skipped by design and is not an event)
     let expect = input.strip_prefix(BOM).unwrap_or(input);
     let written = concat(&ev);
+    let mut needless_escape = false;
     if written != expect {
-        return bad("events-roundtrip", format!("input {} parses, but its events serialize to {}", show(input), show(&written)));
+        // Documented limit of the header event ("mostly losslessly", subsection stored "with escapes folded"): a backslash in a
+        // quoted subsection that escapes a byte other than '"', '\\' and NUL is not reproduced. Everything else must match exactly.
+        match compare_modulo_needless_escapes(&ev, expect) {
+            Ok(()) => needless_escape = true,
+            Err(at) => {
+                return bad(
+                    "events-roundtrip",
+                    format!("input {} parses, but its events serialize to {} (first difference at input offset {at})", show(input), show(&written)),
+                )
+            }
+        }
+        // ... and the written text must still parse to the very same events
+        match events(&written) {
+            Ok(ev2) if ev2 == ev => {}
+            _ => return bad("events-roundtrip", format!("input {} is written as {} which parses to different events", show(input), show(&written))),
+        }
     }
     // owned events serialize identically
     let owned: Vec<Event<'static>> = ev.iter().map(Event::to_owned).collect();
-    if concat(&owned) != expect {
+    if concat(&owned) != written {
         return bad("events-roundtrip-owned", format!("owned events of {} serialize to {}", show(input), show(&concat(&owned))));
     }
     // the grouped form yields the same event stream
@@ -67,6 +83,10 @@ fn decide(input: &[u8]) -> Verdict {
     let has_cont = ev.iter().any(|e| matches!(e, Event::ValueNotDone(_)));
     let nvals: usize = m1.iter().map(|s| s.entries.len()).sum();
     let identical = t2.as_slice() == expect;
+    let _ = &written;
+    if needless_escape {
+        return ok_trivial("needless-subsection-escape-folded");
+    }
     if m1.is_empty() {
         return if ev.is_empty() { ok_trivial("empty") } else { ok("frontmatter-only") };
     }
@@ -80,6 +100,63 @@ fn decide(input: &[u8]) -> Verdict {
         (_, false, false, _) => "values/newline-added",
     };
     ok(class)
+}
+
+/// Walk `input` along the events: every event must cover exactly its own serialization, except that inside a quoted
+/// subsection a backslash before a byte other than `"`/`\\` may be missing from the serialization.
+/// Ok(()) if the whole input is covered that way, Err(offset) otherwise.
+fn compare_modulo_needless_escapes(ev: &[Event<'_>], input: &[u8]) -> Result<(), usize> {
+    let mut at = 0usize;
+    for e in ev {
+        let w = e.to_bstring();
+        match e {
+            Event::SectionHeader(h) if h.subsection_name().is_some() && !h.is_legacy() => {
+                let mut wi = 0usize;
+                let mut in_quotes = false;
+                // `w` is [name sep "escaped"]; consume input bytes, allowing extra backslashes inside the quotes
+                while wi < w.len() {
+                    let Some(&b) = input.get(at) else { return Err(at) };
+                    if in_quotes && b == b'\\' {
+                        let Some(&n) = input.get(at + 1) else { return Err(at) };
+                        if n == b'"' || n == b'\\' || n == 0 {
+                            // needed escape: must be present in `w` as the same two bytes
+                            if w.get(wi) != Some(&b'\\') || w.get(wi + 1) != Some(&n) {
+                                return Err(at);
+                            }
+                            wi += 2;
+                        } else {
+                            // needless escape: `w` has only the escaped byte
+                            if w.get(wi) != Some(&n) {
+                                return Err(at);
+                            }
+                            wi += 1;
+                        }
+                        at += 2;
+                        continue;
+                    }
+                    if w[wi] != b {
+                        return Err(at);
+                    }
+                    if b == b'"' {
+                        in_quotes = !in_quotes;
+                    }
+                    wi += 1;
+                    at += 1;
+                }
+            }
+            _ => {
+                if input.get(at..at + w.len()) != Some(w.as_slice()) {
+                    return Err(at);
+                }
+                at += w.len();
+            }
+        }
+    }
+    if at == input.len() {
+        Ok(())
+    } else {
+        Err(at)
+    }
 }
 
 fn eval(c: &Text) -> Verdict {
@@ -104,16 +181,17 @@ pub fn seeds() -> Vec<&'static [u8]> {
 
 pub fn run(run: &'static Run) {
     let ltok = run.pick(5, 6);
-    let lbody = run.pick(5, 6);
+    let lbody = run.pick(4, 6);
     let lhdr = run.pick(6, 7);
     run.rule(format!(
         "tokens: all sequences of <= {ltok} tokens over the 18-token alphabet [a] | [a \"b\"] | [a.b] | k | k=v | ' = ' | '\"' | '\\\"' | '\\\\' | LF | CRLF | backslash-LF | #c | ;c | SP | TAB | BOM | v; \
-         body: 4 header/key prefixes x all sequences of <= {lbody} tokens over 16 value-level tokens (k = v SP TAB '\"' '\\\"' '\\\\' '\\n' backslash-LF backslash-CRLF LF CRLF #c ; [b]); \
-         header: every string of <= {lhdr} tokens over ([ a B . - 1 SP '\"' '\\' ] x) + LF k=v LF; \
+         body: 4 header/key prefixes x all sequences of <= {lbody} tokens (<= 5 for the last three prefixes) over 16 value-level tokens (k = v SP TAB '\"' '\\\"' '\\\\' '\\n' backslash-LF backslash-CRLF LF CRLF #c ; [b]); \
+         header: every string of <= {lhdr} tokens starting with '[' over ([ a B . - 1 SP '\"' '\\' ] NUL) + LF k=v LF; \
          mutate: 10 seed files x every truncation, single-byte deletion, and substitution/insertion of 16 bytes at every offset. \
-         non-trivial = the text parses and has at least one event (events must reproduce the bytes; loaded file -> to_bstring -> reload must give equal sections/values and be a fixpoint)"
+         non-trivial = the text parses and has at least one event (events must reproduce the bytes; loaded file -> to_bstring -> reload must give equal sections/values fixpoint of rewriting is recorded as an outcome only)"
     ));
     run.assume("a leading UTF-8 BOM is skipped by the parser by design (test `skips_bom`): events must reproduce the input after the BOM");
+    run.assume("header events are documented to be written `mostly losslessly` with subsection escapes folded: a backslash in a quoted subsection before a byte other than '\"', '\\\\' or NUL is not reproduced; for such inputs all other bytes must match and the written text must parse to identical events");
     run.assume("`equal sections and values` = equal ordered list of (section name bytes, subsection bytes, ordered (key bytes, normalized value)) as exposed by File::sections()/Body::into_iter()");
     run.budget_secs(run.pick(35.0, 560.0));
 
@@ -134,8 +212,10 @@ pub fn run(run: &'static Run) {
         "body",
         vkit::Opts::default().chunk(1 << 16),
         |emit| {
-            for p in prefixes {
-                enumerate::strings(&body, 0, lbody, |s| {
+            for (pi, p) in prefixes.into_iter().enumerate() {
+                // thorough: the first prefix goes one token deeper than the other three
+                let l = if pi < 1 { lbody } else { lbody.min(5) };
+                enumerate::strings(&body, 0, l, |s| {
                     let mut t = p.to_vec();
                     t.extend_from_slice(s);
                     emit(Text { text: B(t) })
@@ -145,7 +225,7 @@ pub fn run(run: &'static Run) {
         eval,
     );
 
-    let hdr: [&[u8]; 10] = [b"[", b"a", b"B", b".", b"-", b"1", b" ", b"\"", b"\\", b"]"];
+    let hdr: [&[u8]; 11] = [b"[", b"a", b"B", b".", b"-", b"1", b" ", b"\"", b"\\", b"]", b"\0"];
     run.sub_with(
         "header",
         vkit::Opts::default().chunk(1 << 16),
